@@ -189,6 +189,18 @@ def dedup_guard(ctx, rule, crate, crs, fn, set_field, tag=""):
                         why = "push is not dominated by the `newly inserted` edge of %s.insert" % set_field
     ctx.ob(rule + tag, b.key, "dedup:%s" % set_field, ok, b.loc(),
            "future is only queued when the id was newly inserted into %s" % set_field if ok else why)
+    # ... and the converse: an id that was marked (newly inserted) is always queued - a return between the mark and the push leaves
+    # a solvable / package that counts as encoded but never gets clauses (seed C02-17)
+    conv = False
+    for ii, it in ins:
+        for c in cs:
+            if c.kind == "bool" and c.src and c.src.get("k") == "call" and c.src.get("bb") == ii:
+                tr = c.target(True)
+                reach = b.reachable([tr], avoid=[pi for pi, _ in pushes])
+                if pushes and not (set(b.return_blocks()) & reach):
+                    conv = True
+    ctx.ob(rule + tag, b.key, "marked-implies-queued:%s" % set_field, conv, b.loc(),
+           "every path from the `newly inserted` edge of %s.insert to the return queues the future" % set_field)
 
 
 def availability_query(ctx, rule, crate, crs, tag=""):
